@@ -358,3 +358,115 @@ Example C10_matches_method_nonvacuous :
     (EMatches ann0 (Some "^a"%string) (EStr ann0 "abc") (EStr ann0 "^z"))
   = Some [(IPush (VStr "abc"), noloc); (IPush (VStr "^z"), noloc); (IMatches, noloc)].
 Proof. exact X.Bridge.BrSchemesMatches.matches_scheme_example. Qed.
+
+(* ================ Front-end capstone (Bridge/BrCapstoneC10.v): the main theorems once more, with the children of a
+   node, the walker and the necessity statement all read through the table REGENERATED from ast/visitor.go.
+     source_children e              = the nodes held by the fields walked by the regenerated case of walker.walk
+     source_entered e               = what the recording visitor is handed at Enter by `walk .. gen_walked`
+     source_entered_without k f e   = the same with field f left out of the regenerated case of kind k
+   No hand-written slot table occurs below. *)
+Require Import X.Bridge.BrCapstoneC10.
+Local Open Scope nat_scope.
+
+Theorem C10_source_children_are_reference : forall e, source_children e = children e.
+Proof. exact src_children_are_reference. Qed.
+Print Assumptions C10_source_children_are_reference.
+
+Theorem C10_source_spec_events_shape : forall e,
+  spec_events e = EvEnter e :: List.concat (map spec_events (source_children e)) ++ [EvExit e].
+Proof. exact src_spec_events_shape. Qed.
+Print Assumptions C10_source_spec_events_shape.
+
+Theorem C10_source_preorder_shape : forall e,
+  preorder e = e :: List.concat (map preorder (source_children e)) /\
+  postorder e = List.concat (map postorder (source_children e)) ++ [e].
+Proof. exact src_preorder_shape. Qed.
+Print Assumptions C10_source_preorder_shape.
+
+Theorem C10_source_subterm_step : forall i q e,
+  subterm_at (i :: q) e = match nth_error (source_children e) i with Some c => subterm_at q c | None => None end.
+Proof. exact src_subterm_step. Qed.
+Print Assumptions C10_source_subterm_step.
+
+Theorem C10_source_map_tree_shape : forall f e,
+  map_tree f e = f (set_children e (map (map_tree f) (source_children e))).
+Proof. exact src_map_tree_shape. Qed.
+Print Assumptions C10_source_map_tree_shape.
+
+(* one step, ALL visitors, ALL trees *)
+Theorem C10_source_walk_step : forall St n (v : visitor St) s e,
+  walk (S n) gen_walked v s e =
+  match walk_list (walk n gen_walked v) (fst (v_enter v s e)) (source_children (snd (v_enter v s e))) with
+  | LDone s2 cs =>
+      WDone (fst (v_exit v s2 (set_children (snd (v_enter v s e)) cs)))
+            (snd (v_exit v s2 (set_children (snd (v_enter v s e)) cs)))
+  | LPanic => WPanic
+  | LOutOfFuel => WOutOfFuel
+  end.
+Proof. exact src_walk_step. Qed.
+Print Assumptions C10_source_walk_step.
+
+(* events = specification, every node entered once and exited once, in ONE statement about the walker's output *)
+Theorem C10_source_events_exactly_once : forall e n l, esize e <= n ->
+  exists l', walk n gen_walked logger l e = WDone (l ++ l') e /\ l' = spec_events e /\
+    enters l' = preorder e /\ exits l' = postorder e /\ List.length (enters l') = esize e /\
+    Permutation (enters l') (exits l') /\
+    (NoDup (map loc_of (preorder e)) -> forall x, In x (preorder e) ->
+       count_occ loc_eq_dec (map loc_of (enters l')) (loc_of x) = 1 /\
+       count_occ loc_eq_dec (map loc_of (exits l')) (loc_of x) = 1).
+Proof. exact src_events_exactly_once. Qed.
+Print Assumptions C10_source_events_exactly_once.
+
+(* ... for ALL state-passing visitors replacing at Exit: the walker terminates and the event identities are the
+   specified ones of the original tree *)
+Theorem C10_source_events_all_visitors : forall St (x : xvisitor St) e n s l, esize e <= n ->
+  exists s' l' e', walk n gen_walked (to_visitor (xinstrument x)) (s, l) e = WDone (s', l') e' /\
+    map ev_id l' = map ev_id l ++ map ev_id (spec_events e).
+Proof. exact src_events_all_visitors. Qed.
+Print Assumptions C10_source_events_all_visitors.
+
+(* ... and for ALL visitors (replacing at Enter too) on finished runs *)
+Theorem C10_source_enters_exits_general : forall St (v : visitor St) n e s l s' l' e',
+  walk n gen_walked (instrument v) (s, l) e = WDone (s', l') e' ->
+  ((forall s e, snd (v_enter v s e) = e) -> enters l' = enters l ++ preorder e) /\
+  ((forall s e, snd (v_exit v s e) = e) -> exits l' = exits l ++ postorder e').
+Proof. exact src_enters_exits_general. Qed.
+Print Assumptions C10_source_enters_exits_general.
+
+(* replacement effective everywhere: a statement about the tree the walker RETURNS *)
+Theorem C10_source_replace_at_every_position : forall m t e n s,
+  (forall x, m x = true -> children x = []) -> esize e <= n ->
+  exists e', walk n gen_walked (to_visitor (pure_exit (replace_marked m t))) s e = WDone s e' /\
+    (forall p x, subterm_at p e = Some x -> m x = true -> subterm_at p e' = Some (patch x t)) /\
+    ((forall a, exists_node m (set_ann t a) = false) -> exists_node m e' = false).
+Proof. exact src_replace_at_every_position. Qed.
+Print Assumptions C10_source_replace_at_every_position.
+
+(* every field walked by every regenerated case is necessary; the walker as regenerated enters every node *)
+Theorem C10_source_every_slot_necessary : forall k sl, In sl (gen_walked k) ->
+  exists e c, nkind_of e = k /\ In c (source_children e) /\
+    expr_loc_in c (source_entered_without k (fst sl) e) = false /\
+    expr_loc_in c (source_entered e) = true.
+Proof. exact src_every_slot_necessary. Qed.
+Print Assumptions C10_source_every_slot_necessary.
+
+Theorem C10_source_enters_every_node : forall e, source_entered e = preorder e.
+Proof. exact src_enters_every_node. Qed.
+Print Assumptions C10_source_enters_every_node.
+
+(* non-vacuity: the hypotheses of C10_source_replace_at_every_position are met by `everywhere` / is_mark (leaf marker,
+   8 marked positions, replacement free of the marker), and the slice case of the regenerated table has three
+   necessary slots *)
+Example C10_source_nonvacuous :
+  (forall x, is_mark x = true -> children x = []) /\
+  (forall a, exists_node is_mark (set_ann (int_at 0 1000) a) = false) /\
+  (esize everywhere <= 22)%nat /\
+  map (fun p => subterm_at p everywhere) mark_paths = repeat (Some mark) 8%nat /\
+  List.length (gen_walked NkSlice) = 3%nat /\
+  source_children slice_witness = [idA; int_at 2 1; int_at 4 2] /\
+  expr_loc_in idA (source_entered_without NkSlice FNode slice_witness) = false /\
+  expr_loc_in idA (source_entered slice_witness) = true.
+Proof.
+  split; [intros x H; destruct x; try discriminate; reflexivity|].
+  split; [intros a; reflexivity|]. vm_compute. repeat split. apply le_n.
+Qed.
